@@ -13,11 +13,13 @@ import (
 
 // Run is the C06 check.
 func Run(c *vrun.Ctx) error {
-	c.Ev.Coverage.Rule = "TLC evaluates the reference interpreter of ScriptVM.tla / ScriptSeq.tla on (a) every program of the tier's length over the token alphabets " +
-		"(MCProg: grown token by token, a failed prefix is not extended) from every initial stack of the run, as bare scriptPubKey, P2WSH witness script and tapscript leaf, " +
-		"under every flag set block validation reaches and the relay flag set; (b) every opcode byte and push form over a set of operand stacks (unit sweep); " +
-		"(c) signature stacks and programs with real keys and signatures; (d) CLTV / CSV over transaction contexts; (e) limit programs (MCPump); (f) whole-spend sequencing scenarios (MCSeq). " +
-		"Every state is concretised to real scripts, keys, signatures and a transaction and run through txscript.NewEngine + Step() / Execute(); after every step the stacks, at the end the verdict are compared. " +
+	c.Ev.Coverage.Rule = "TLC evaluates the reference interpreter of ScriptVM.tla / ScriptSeq.tla on: (a) MCProg - every program of the run's length over its token alphabet, grown token by token " +
+		"(a failed prefix is not extended), from every initial stack of the run, as bare scriptPubKey, P2WSH witness script and tapscript leaf, under the flag sets block validation reaches along the soft-fork history " +
+		"and the relay set StandardVerifyFlags: programs of <= 3 tokens (4 over the smallest alphabet in thorough), every opcode byte and push form over operand stacks (unit sweep), every token in a branch that is not executed, " +
+		"conditional nesting to depth 6, signature opcodes over stacks of real keys and signatures, CLTV/CSV over six transaction contexts, and TLC-simulated programs of up to 40 tokens that keep running; " +
+		"(b) MCPump - generated programs at and one past every limit (201 operations, 1000 stack elements, 10000 script bytes); (c) MCSeq - whole spends (P2PKH .. P2SH .. segwit v0 .. taproot key and script path) under all 8 flag sets. " +
+		"Every state is concretised (real secp256k1 keys, real signatures over the real signature hash, real hashes, taproot trees) and run through txscript.NewEngine + Step() and an independent Execute() " +
+		"(scenarios also through blockchain.ValidateTransactionScripts with shared caches); after every step GetStack / GetAltStack are compared with the specification's stacks, at the end the verdict. " +
 		"distinct_nontrivial counts distinct (mode, last token, outcome class, verdict) tuples, pump outcomes and (scenario, flag set) pairs."
 	c.Assume("TLC evaluates the specification's operators correctly; the reference semantics are those of Bitcoin Core's interpreter.cpp as transcribed in ScriptVM.tla / ScriptSeq.tla")
 	c.Assume("signature mathematics, signature hashes (C07) and taproot commitment arithmetic are not re-implemented: signatures are made with btcec over the hashes txscript computes; an abstract signature is valid for exactly one (key, sigversion, code position)")
@@ -38,16 +40,15 @@ func Run(c *vrun.Ctx) error {
 	}
 	if !th {
 		lanes = [][]func() error{
-			{prog(progRun{name: "quick", runs: []string{"small3", "unitq", "skip3", "cond6", "core2", "lock", "sigu", "sig2"}, workers: 4, timeout: tm})},
+			{prog(progRun{name: "quick", runs: []string{"small3", "unitq", "skip3", "cond6", "data", "core2", "lock", "sigu", "sig2"}, workers: 4, timeout: tm})},
 			{b.runSeq, sim("sim", "sim", 12, 32)},
 			{b.runPumps},
 		}
 	} else {
 		lanes = [][]func() error{
-			{prog(progRun{name: "thorough-a", runs: []string{"core3", "sig3", "lock", "sigu", "skip3"}, workers: 3, timeout: tm})},
+			{prog(progRun{name: "thorough-a", runs: []string{"core3", "sig3", "lock", "sigu", "skip3", "data"}, workers: 3, timeout: tm})},
 			{prog(progRun{name: "thorough-b", runs: []string{"unit", "tiny4", "core2m", "cond6", "small3s"}, workers: 3, timeout: tm})},
-			{b.runSeq, b.runPumps, prog(progRun{name: "coverage", runs: []string{"core2"}, workers: 1, timeout: tm, coverage: true}),
-				sim("sim", "sim", 600, 40)},
+			{b.runSeq, b.runPumps, sim("sim", "sim", 600, 40)},
 			{sim("simcore", "simcore", 250, 40)},
 		}
 	}
